@@ -131,6 +131,30 @@ func exploreProgram(r *report.R, i int, level string, bound int, expected string
 		w := witness{Program: p.Name, Level: level, Schedule: o.Choices(), Output: out, Expected: expected}
 		size := len(o.Points)*10 + vsched.Preemptions(o.Points)
 
+		// Confirm before believing: an Ego error or a wrong output is reported
+		// only if replaying the same schedule shows it again.
+		if o.Panic == nil && !o.Deadlock && !o.Horizon && (err != nil || out != expected) {
+			firstOut, firstErr := out, err
+			again := false
+
+			for k := 0; k < 3 && !again; k++ {
+				ro := sc.Replay(o.Choices())
+				if ro.Panic != nil || ro.Deadlock || err != nil || out != expected {
+					again = true
+				}
+			}
+
+			out, err = firstOut, firstErr
+
+			if !again {
+				r.Add("unconfirmed_differences", 1)
+				r.Set("unconfirmed_sample", map[string]any{"program": p.Name, "level": level, "schedule": o.Choices(), "output": firstOut, "error": fmt.Sprint(firstErr)})
+				outcomes[expected]++
+
+				return
+			}
+		}
+
 		switch {
 		case o.Panic != nil:
 			w.Error = fmt.Sprint(o.Panic) + "\n" + o.PanicStk
@@ -360,7 +384,7 @@ func main() {
 	}
 
 	r.Rule(fmt.Sprintf("%d synchronized Ego programs (mutex counter, channel pipeline, two producers, closure capture, loop-variable argument, nested goroutine, once-style init, results by index) x every interleaving with <=%d preemptions (one less for the three-goroutine programs) at every lock/WaitGroup/channel operation of program and interpreter, and with <=%d preemptions at every bytecode instruction; distinct = distinct schedules", len(programs), syncBound, instrBound))
-	r.Assume("the Go toolchain is the reference for the expected output", "scheduling points: woven sync operations module-wide, modelled Ego channels, the per-instruction atomic counter; plain memory accesses between them are covered only by the auxiliary -race pass", "memory-ordering effects below Go's happens-before are not modelled")
+	r.Assume("the Go toolchain is the reference for the expected output", "an Ego error or wrong output is reported only if replaying the same schedule shows it again (up to 3 replays); non-repeating differences are counted under unconfirmed_differences", "scheduling points: woven sync operations module-wide, modelled Ego channels, the per-instruction atomic counter; plain memory accesses between them are covered only by the auxiliary -race pass", "memory-ordering effects below Go's happens-before are not modelled")
 	r.Finish()
 }
 
